@@ -1580,7 +1580,7 @@ func unmarshalLike(argIdx int) intrinsic {
 				// decodable document" and "the load succeeds"
 				if argIdx == 1 && i == res.Len()-1 && res.At(i).Type().String() == "error" && len(args) > 0 {
 					if dt, ok := args[0].(Term); ok {
-						x.assume(Eq(Eq(r, Term{"iface.nil", SIface}), w.UF("spec.decodes", SBool, dt)))
+						x.assume(Eq(Eq(r, Term{"iface.nil", SIface}), w.UF("spec.decodes", SBool, dt, w.StrLit(types.TypeString(pt.Elem(), func(p *types.Package) string { return p.Name() })))))
 					}
 				}
 			}
